@@ -27,6 +27,9 @@ JOBS = [
   Job("c17.many", TU, "h_many", enforce=["myth_create_join_many_ex_body/many_contract"],
       replace=["myth_create_join_various_ex_body/various_contract"],
       fuc=["myth_create_join_many_ex_body"], timeout=200, mem_gb=4),
+  Job("c17.many.reentrant", TU, "h_many_reentrant", replace_calls=["myth_create_join_various_ex_body:verif_various_reent"],
+      fuc=["myth_create_join_many_ex_body"], timeout=200, mem_gb=4,
+      note="re-entrancy: an item of a bulk call makes another bulk call with another function; the outer call's function slot is unchanged"),
   Job("c17.lemma.mono", TU, "h_lemma_mono", solver="z3", fuc=[], timeout=100, mem_gb=2,
       note="x < y and s >= 0 imply x*s + s <= y*s over the mathematical integers (z3); machine products of operands below 2^31 do not overflow"),
 ]
